@@ -1061,6 +1061,8 @@ pub fn c05(tier: Tier) -> i32 {
     explore_alpha("C05", &mut ctx, &env, &profiles::oversell(), n_over, &mut acc);
     explore_alpha("C05", &mut ctx, &env, &profiles::oversell_two_sec(), n_over, &mut acc);
     ctx.require(acc.get("interleaved-line-order-also-run") > 0, "no ledger was run in an interleaved order");
+    crate::cli::c05_frontends(&mut ctx, &mut acc);
+    ctx.require(acc.get("frontend:cli-runs") > 0 && acc.get("frontend:mcp-requests") > 0, "front-ends not exercised");
     ctx.require(acc.get("covered-and-accepted") > 0, "no covered ledger");
     ctx.require(acc.get("shape:uncovered") > 0, "no uncovered ledger");
     ctx.bound = json!({"match1_max_events": n_full, "oversell_max_events": n_over});
@@ -1097,8 +1099,8 @@ pub fn c09(tier: Tier) -> i32 {
     let env = Env::new();
     let mut acc = Acc::new();
     let n = match tier {
-        Tier::Quick => 5,
-        Tier::Thorough => 6,
+        Tier::Quick => 6,
+        Tier::Thorough => 7,
     };
     explore_alpha("C09", &mut ctx, &env, &profiles::two_sec(), n, &mut acc);
     explore_alpha("C09", &mut ctx, &env, &profiles::two_sec_fills(), n + 1, &mut acc);
